@@ -15,7 +15,7 @@ pub static SCENARIO: Scenario = Scenario {
     rule: "misroute-protocol: all 56 ordered pairs (X, Y), X != Y, visited in rotation (run index mod 56), complete in every tier: an authentic token of X (issued at the core, generic or batteries layer, message lengths of every class so that payloads shorter than Y's nonce+tag/signature occur) is presented to the core, generic and batteries entry points of Y (parsers carry logging validators) (i) verbatim and (ii) with its header text replaced by Y's. Key material: the same 32 bytes for every local<->local pair and the same Ed25519 pair for v2.public<->v4.public, otherwise Y's own key. The six pairs straddling the feature-set binaries (v3.public <-> v1/v2/v4.public) use tokens imported from the other binary's outbox. Every run is non-trivial; distinct = distinct abstract traces.",
     runs: |t| match t {
         Tier::Quick => 56 * 100,
-        Tier::Thorough => 56 * 1500,
+        Tier::Thorough => 56 * 7500,
     },
     gen,
     judge: |run, obs| oracle::judge("C07", run, obs),
